@@ -154,7 +154,7 @@ func Explore(p *Program, harness string, opt Options) *Report {
 		opt.Workers = 1
 	}
 	if opt.Solver == "" {
-		opt.Solver = "z3"
+		opt.Solver = "z3-new"
 	}
 	if opt.TimeoutMS == 0 {
 		opt.TimeoutMS = 20000
@@ -294,6 +294,7 @@ func Explore(p *Program, harness string, opt Options) *Report {
 			rep.QUnknown += k
 			rep.QErrors += e
 			rep.SolverSecs += secs
+			fmt.Fprintf(os.Stderr, "worker %d: check %.1fs values %.1fs\n", w, secs, m.sol.ValTime.Seconds())
 			mu.Unlock()
 		}(w)
 	}
